@@ -155,6 +155,31 @@ def check(run, model, tier):
                  '' if ok else '__lt__ differs from the lexicographic order (priority, then construction sequence); first mismatch '
                  '(priority,seq) %s < %s evaluates to %s, expected %s' % mism[0], obligation=True)
         run.inst('CMP.total-order', init, 'sequence from %s' % norm(fields[seq]), True, nontrivial=False)
+    # ---- the monotone source is bound once; the sequence field is written only at construction
+    if seq is not None:
+        srcname = dotted(fields[seq].args[0]).split('.')[-1]
+        n_bind = 0
+        for f in model.all_funcs():
+            for n in walk_shallow(f.node):
+                tg = []
+                if isinstance(n, ast.Assign):
+                    tg = n.targets
+                elif isinstance(n, (ast.AugAssign, ast.AnnAssign)):
+                    tg = [n.target]
+                for t in tg:
+                    if isinstance(t, ast.Attribute) and t.attr == srcname:
+                        n_bind += 1
+                        run.inst('CMP.total-order', f, 'rebinds the sequence source: ' + norm(n), False,
+                                 ('%s replaces the counter that numbers queued events (%s): events numbered before the reset carry larger numbers than events '
+                                  'numbered after it, so later publications of equal priority overtake earlier ones still waiting in the heap' % (f.qualname, norm(n))),
+                                 node=n, obligation=True)
+                    if isinstance(t, ast.Name) and t.id == srcname and any(isinstance(g_, ast.Global) and srcname in g_.names for g_ in walk_shallow(f.node)):
+                        n_bind += 1
+                        run.inst('CMP.total-order', f, 'rebinds the sequence source: ' + norm(n), False, 'the module-level counter is replaced in %s' % f.qualname, node=n, obligation=True)
+                    if isinstance(t, ast.Attribute) and t.attr == seq and f is not init:
+                        run.inst('CMP.total-order', f, 'rewrites the sequence field: ' + norm(n), False,
+                                 'the construction sequence number of a queued item is modified after construction in %s' % f.qualname, node=n, obligation=True)
+        run.inst('CMP.total-order', k.name, 'sequence source %s is bound once (class/module level)' % srcname, n_bind == 0, nontrivial=True, obligation=True)
     run.note('fields read by __lt__: %s; domain %s x %s' % (read, dom, dom))
     # consumers use get()
     for nm in ('thread_runner_fifo', 'thread_runner_lifo'):
